@@ -37,6 +37,10 @@ def main():
         rows.append("| %s | %s | %s | %s | %s | %s | %s |" % (
             sid, files, summary, "yes" if own.get("exit") else "**NO**", how + (" (%s)" % kind if kind else ""),
             ", ".join(others) or "-", strengthened.get(sid, "")))
+    total = len(rows)
+    own = sum(1 for r in rows if "| yes |" in r)
+    stren = sum(1 for sid in strengthened if any(r.startswith("| %s |" % sid) for r in rows) and any(r.startswith("| %s |" % sid) and "| yes |" in r for r in rows))
+    print("<!-- counts: %d seeds, %d caught by the property's own check (final state), %d of them with a strengthening note, %d not caught by the own check -->" % (total, own, stren, total - own))
     print("| seed | file | change | caught by its property's check | how | also caught by | strengthening it prompted |")
     print("|---|---|---|---|---|---|---|")
     print("\n".join(rows))
